@@ -3,7 +3,7 @@ import sys
 
 import encdata as E
 from enc import call, tres, gz
-from props import corpus, disview, progen
+from props import corpus, disview, linecodes, progen
 
 
 def check_view(ctx, origin, k, d):
@@ -71,6 +71,10 @@ def work(ctx):
 
     for origin, k in corpus.code_objects(ctx.tier, rng):
         check(origin, k)
+    # line tables at the assembler's boundaries, on real code objects
+    for what, k in linecodes.boundary_codes(rng, ctx.quick):
+        ctx.count("boundary-line-tables")
+        check("linetab", k)
     for src, mode in progen.programs(ctx, 50 if ctx.quick else 1500):
         try:
             top = compile(src, "<gen>", mode, dont_inherit=True)
